@@ -157,7 +157,7 @@ def data_branch_emissions(p: Program):
     if ne is None:
         raise AnalysisError("MultipartDecoder.next_event vanished")
     BUF = ("attr", ("param", "self"), "buffer")
-    paths, col, it = run_paths(p, ne, dec, inline=lambda fi: False)
+    paths, col, it = run_paths(p, ne, dec)
     out = []
 
     def truth_of(v, pa):
@@ -216,7 +216,7 @@ def receive_data_discipline(p: Program, rep=None):
     BUF = ("attr", ("param", "self"), "buffer")
     if rep is not None:
         rep.analysed(rd.fq)
-    rpaths, rcol, _ = run_paths(p, rd, dec, inline=lambda fi: False)
+    rpaths, rcol, _ = run_paths(p, rd, dec)
     if rep is not None:
         rep.cfg_paths += len(rpaths)
     dparam = rd.params[1] if len(rd.params) > 1 else "data"
@@ -254,7 +254,7 @@ def header_line_split(p: Program, rep=None):
     ph = dec.methods["_parse_headers"]
     if rep is not None:
         rep.analysed(ph.fq)
-    hpaths, hcol, _ = run_paths(p, ph, dec, inline=lambda fi: False)
+    hpaths, hcol, _ = run_paths(p, ph, dec)
     if rep is not None:
         rep.cfg_paths += len(hpaths)
     n_split = 0
@@ -287,7 +287,7 @@ def file_field_decision(p: Program, rep=None):
     ne = dec.methods["next_event"]
     if rep is not None:
         rep.analysed(ne.fq)
-    paths, col, _ = run_paths(p, ne, dec, inline=lambda fi: False)
+    paths, col, _ = run_paths(p, ne, dec)
     out = []
     n_kind = 0
     for pa in paths:
